@@ -325,10 +325,19 @@ def check(ROOT, REPO, LEAN, GOENV, pid, prop, tier, seed):
                 extra = [a for a in t["axioms"] if a not in ALLOWED_AXIOMS]
                 if extra:
                     broken.append("axioms:%s uses %s" % (t["name"], extra))
+            if tier == "thorough":
+                # independent re-check of the compiled property modules (and everything they import)
+                # by the toolchain's leanchecker: replays every declaration through the kernel
+                crc, cout = sh(["lake", "env", "leanchecker"] + prop["lean"], cwd=LEAN, timeout=1800)
+                rechecked = crc == 0
+                if crc != 0:
+                    broken.append("leanchecker: " + cout[-1000:])
         forb = grep_forbidden(LEAN) if tier == "thorough" or True else []
         if forb:
             broken.append("forbidden tokens: " + "; ".join(forb[:10]))
     gen_changed = info.get("generated_changed", [])
+    if "rechecked" not in dir():
+        rechecked = False
     stale = [f for f in info.get("changed_funcs", []) if any(f.startswith(pfx) for pfx in prop.get("fingerprints", []))]
     harness_ok = info.get("harness_build", (1, ""))[0] == 0
     # ---- correspondence
@@ -453,7 +462,8 @@ def check(ROOT, REPO, LEAN, GOENV, pid, prop, tier, seed):
         "property_id": pid, "tier": tier, "seed": seed, "level": prop.get("level", "proof"),
         "coverage": {
             "obligations": obligations, "discharged": discharged,
-            "checker_cmd": "cd /verif/lean && lake build %s driver && lake env lean <audit: #audit_ns GV.Props.%s>" % (" ".join(prop["lean"]), pid),
+            "checker_cmd": "cd /verif/lean && lake build %s driver && lake env lean <audit: #audit_ns GV.Props.%s>%s" % (" ".join(prop["lean"]), pid, (" && lake env leanchecker " + " ".join(prop["lean"])) if tier == "thorough" else ""),
+            "rechecked_by_leanchecker": bool(rechecked),
             "trusted_base": prop.get("trusted_base", []) + ["axioms used: " + ", ".join(axioms_used)],
             "theorems": [t["name"] for t in thms],
             "evaluations": stats["evaluations"],
